@@ -204,6 +204,13 @@ def discharge(S, site, prog):
                     tx = S.operand(b, x)
                     if _length_like(tx):
                         return ("length-arithmetic", f"{term_class(symmod.strip_transparent(tx), b)} + {y.get('v')}")
+            # (d') small constant added to a closure parameter that is an index by construction:
+            #      the closure is handed to Option::map/map_or/.. on the result of position()/find()/len()...
+            for x, y in ((a, c), (c, a)):
+                if y["k"] == "const" and _small_const(y) and _is_usize(b, x):
+                    r = closure_index_param(S, b, x, prog)
+                    if r:
+                        return ("index-parameter", r)
             # len + len
             if _is_usize(b, a) and _is_usize(b, c):
                 ta, tc = S.operand(b, a), S.operand(b, c)
@@ -218,6 +225,11 @@ def discharge(S, site, prog):
                         return ("constant-operand", f"[{idx[1]}] of {ln[1]}")
                 except Exception:
                     pass
+            # (e) constant index under a dominating test of the length of the same slice
+            if idx[0] == "const" and str(idx[1]).isdigit() and ln[0] == "unop":
+                g = len_guard(S, b, site.bb, ln[2], int(idx[1]), prog)
+                if g:
+                    return ("length-test", g)
             return None
         if kind == "overflow:Sub":
             g = dominating_compare(b, site.bb, ops[0], ops[1], S)
@@ -240,6 +252,13 @@ def discharge(S, site, prog):
         ty = t.get("arg_tys", ["", ""])
         if len(ty) > 1 and ty[1] == "std::ops::RangeFull":
             return ("constant-operand", "[..]")
+        # (e) v[k] with a literal k under a dominating test of v.len() (also when v is captured by a closure
+        #     that is created under the test)
+        if len(t["args"]) == 2 and t["args"][1]["k"] == "const" and str(t["args"][1].get("v", "")).isdigit() and len(ty) > 1 and ty[1] == "usize":
+            coll = symmod.strip_transparent(S.operand(b, t["args"][0]))
+            g = len_guard(S, b, site.bb, coll, int(t["args"][1]["v"]), prog)
+            if g:
+                return ("length-test", g)
         return None
     if site.kind == "radix":
         for o in t["args"]:
@@ -342,3 +361,113 @@ def dominating_compare(body, bb, a, c, S):
         if edge is not None and (edge in dom or edge == bb):
             return f"branch on {op} of the same operands dominates"
     return None
+
+
+# ---------------------------------------------------------------- length tests and closure parameters
+
+LEN_CALL = re.compile(r"^<(std::vec::Vec<T, A>|\[T\]|std::collections::VecDeque<T, A>|ordermap::OrderMap<K, V>|str|std::string::String)>::len$")
+OPTION_MAPPERS = re.compile(r"^<std::option::Option<T>>::(map|map_or|map_or_else|and_then|is_some_and|is_none_or|filter|inspect|into_iter|iter)$")
+
+
+def _same_place(x, y):
+    return repr(symmod.strip_transparent(x)) == repr(symmod.strip_transparent(y))
+
+
+def _is_len_of(t, coll):
+    t = symmod.strip_transparent(t)
+    if t[0] == "call" and LEN_CALL.search(t[1]) and t[2]:
+        return _same_place(t[2][0], coll)
+    if t[0] == "unop" and t[1] in ("PtrMetadata", "Len") and len(t) > 2:
+        return _same_place(t[2], coll)
+    return False
+
+
+def _len_guard_local(S, body, bb, coll, k):
+    """a switch dominating bb on an edge that implies len(coll) > k"""
+    dom = body.dominators().get(bb, set())
+    for d in sorted(dom):
+        t = body.blocks[d]["term"]
+        if t["k"] != "switch":
+            continue
+        cond = symmod.strip_transparent(S.operand(body, t["discr"]))
+        false_t = [tg for v, tg, _ in t["targets"] if str(v) == "0"]
+        true_t = t["otherwise"]
+
+        def on(edge):
+            return edge is not None and (edge in dom or edge == bb)
+        if cond[0] == "binop" and cond[1] in ("Eq", "Ne", "Ge", "Gt", "Le", "Lt"):
+            for l, c, op in ((cond[2], cond[3], cond[1]), (cond[3], cond[2], {"Ge": "Le", "Gt": "Lt", "Le": "Ge", "Lt": "Gt"}.get(cond[1], cond[1]))):
+                if not (_is_len_of(l, coll) and c[0] == "const" and str(c[1]).isdigit()):
+                    continue
+                n = int(c[1])
+                ft = false_t[0] if len(false_t) == 1 else None
+                if op == "Eq" and n > k and on(true_t) and true_t != ft:
+                    return f"len == {n} on the dominating edge"
+                if op == "Ge" and n > k and on(true_t) and true_t != ft:
+                    return f"len >= {n} on the dominating edge"
+                if op == "Gt" and n >= k and on(true_t) and true_t != ft:
+                    return f"len > {n} on the dominating edge"
+                if op == "Ne" and n > k and on(ft):
+                    return f"len == {n} on the dominating edge"
+                if op == "Lt" and n > k and on(ft):
+                    return f"len >= {n} on the dominating edge"
+                if op == "Le" and n >= k and on(ft):
+                    return f"len > {n} on the dominating edge"
+        if _is_len_of(cond, coll):
+            for v, tg, _ in t["targets"]:
+                if str(v).isdigit() and int(v) > k and on(tg) and tg != t["otherwise"]:
+                    return f"match arm len == {v} dominates"
+    return None
+
+
+def len_guard(S, body, bb, coll, k, prog):
+    g = _len_guard_local(S, body, bb, coll, k)
+    if g:
+        return g
+    # the collection is captured by this closure: look for the test where the closure is created
+    coll = symmod.strip_transparent(coll)
+    parent = body.raw.get("parent")
+    if parent and parent in prog.bodies and coll[0] == "param" and coll[1] == 1 and coll[2]:
+        m = re.match(r"^\.(\d+)$", coll[2][0])
+        if not m or len(coll[2]) != 1:
+            return None
+        pb = prog.bodies[parent]
+        for bi, si, st in pb.stmts():
+            if st["k"] == "assign" and st["rv"]["k"] == "agg" and st["rv"].get("closure") == body.def_:
+                ops = st["rv"]["ops"]
+                i = int(m.group(1))
+                if i < len(ops):
+                    captured = symmod.strip_transparent(S.operand(pb, ops[i]))
+                    g = _len_guard_local(S, pb, bi, captured, k)
+                    if g:
+                        return g + " (at the creation of the capturing closure)"
+    return None
+
+
+def closure_index_param(S, body, op, prog):
+    """op is the (whole) argument of this closure and every use of the closure hands it an index:
+    the closure is an argument of Option::map / map_or / and_then .. applied to a length-like value."""
+    if op["k"] not in ("copy", "move") or body.kind != "Closure":
+        return None
+    term = symmod.strip_transparent(S.operand(body, op))
+    if not (term[0] == "param" and 2 <= term[1] <= body.argc and not term[2]):
+        return None
+    parent = body.raw.get("parent")
+    if not parent or parent not in prog.bodies:
+        return None
+    pb = prog.bodies[parent]
+    uses = []
+    for bi, t in pb.calls():
+        for defs in t.get("arg_defs", []) or []:
+            if body.def_ in defs:
+                uses.append((bi, t))
+    if not uses:
+        return None
+    for bi, t in uses:
+        name = callee_name(t) or ""
+        if not OPTION_MAPPERS.search(name) or not t["args"]:
+            return None
+        recv = S.operand(pb, t["args"][0])
+        if not _length_like(recv):
+            return None
+    return f"closure parameter fed by {_short(callee_name(uses[0][1]))} of a length-like value"
